@@ -281,7 +281,7 @@ var chinese = ev.Register(&ev.P[dayCase]{
 		if yy, err := strconv.Atoi(ms[:i]); err != nil || yy != ly {
 			return fmt.Errorf("LunarMonth %d/%d prints %q: year part", ly, lm, ms)
 		}
-		if n, err := strconv.Atoi(ms[j+len("月("):k]); err != nil || n != lmo.GetDayCount() {
+		if n, err := strconv.Atoi(ms[j+len("月(") : k]); err != nil || n != lmo.GetDayCount() {
 			return fmt.Errorf("LunarMonth %d/%d prints %q: day count part", ly, lm, ms)
 		}
 		_, qm, _, err := parse("〇年" + ms[i+len("年"):j] + "月" + LunarUtil.DAY[1])
